@@ -14,6 +14,19 @@ theorem walk_align_eq : note_walk_align = 4#32 := by decide
 theorem get_align_eq : note_get_align = 4#32 := by decide
 theorem add_align_eq : note_add_align = 4#32 := by decide
 
+/-! ### bridging lemmas for the remaining generated expressions the model calls -/
+namespace NoteTie
+theorem walk_start : note_walk_start = 0 := by decide
+theorem descsz_len : (note_add_descsz_len note_add_align).toNat = 4 := by decide
+theorem type_len : (note_add_type_len note_add_align).toNat = 4 := by decide
+theorem nul_bytes : List.replicate note_add_nul_count.toNat (UInt8.ofBitVec note_add_nul_char) = [0] := by decide
+theorem desc_len (d : BitVec 32) : (note_add_desc_len d).toNat = d.toNat := by
+  have := d.isLt
+  simp only [note_add_desc_len, BitVec.toNat_setWidth, Nat.reducePow] at *
+  omega
+theorem add_start (s : BitVec 64) : note_add_start s = s := rfl
+end NoteTie
+
 /-- the alignment rounding as the code computes it: `(x + align - 1) / align * align` with a
     32-bit `x + align - 1` -/
 def r4 (x : Nat) : Nat := (x + 3) % 4294967296 / 4 * 4
